@@ -13,6 +13,7 @@ import (
 type queuedWorkSpace struct {
 	ws          *WorkSpace
 	wouldMining bool
+	epoch       uint64 // ws.epoch when the request was made
 }
 
 // newQueuedWorkSpace creates queuedWorkSpace from an existing workSpace.
@@ -21,6 +22,7 @@ func newQueuedWorkSpace(ws *WorkSpace, wouldMining bool) *queuedWorkSpace {
 	return &queuedWorkSpace{
 		ws:          ws,
 		wouldMining: wouldMining,
+		epoch:       ws.epoch,
 	}
 }
 
@@ -112,6 +114,11 @@ func (sk *SpaceKeeper) spacePlotter() {
 		}
 		// Step 1: safely change state to plotting/mining
 		sk.stateLock.Lock()
+		if qws.epoch != ws.epoch {
+			// stopped, removed or deleted since it was requested
+			sk.stateLock.Unlock()
+			return
+		}
 		if _, ok := sk.workSpaceIndex[engine.Registered].Get(sid); ok {
 			changeState(engine.Registered, engine.Plotting)
 		} else {
